@@ -104,6 +104,14 @@ CHAIN_TRACE = {"name": "chain-trace", "kind": "trace", "files": CHAINF + ["trace
                                    "SupplyOnlyInBlocks": "C01", "SupplyDeltaIsMintMinusBurn": "C01"},
                "quick": dict(traces=60), "thorough": dict(traces=1500, timeout=3000)}
 
+SIG_TRACE = {"name": "signature-trace", "kind": "trace", "files": SIG + ["trace/Trace_Signature.tla"], "module": "trace/Trace_Signature.tla",
+             "cfg": "trace/Trace_Signature.cfg", "recorder": "trace-signature", "corrupt_event": "publish", "corrupt_field": None, "corrupt_bool": "ok",
+             "header": {"files": SIG, "module": "mc/MBT_Signature.tla", "cfg": "mc/MBT_Signature_header.cfg"},
+             "default_owner": "C15", "event_owner": {"publish": "C15", "store": "C15", "verify": "C15", "createaccount": "C09", "configure": "C15"},
+             "diag_owner": [("ok", None), ("links", "C15"), ("sigs", "C15"), ("accts", "C09")],
+             "invariant_owner": {"VerifySound": "C15", "TrWriteOnce": "C15", "TrNoOverwrite": "C09"},
+             "quick": dict(traces=100), "thorough": dict(traces=3000, timeout=3000)}
+
 MINTER_NUM = {"name": "minter-numeric", "kind": "num", "no_tlc": True, "files": [], "module": None, "harness": "numminter", "checker": "check_minter",
               "quick": dict(steps=300, apalache_samples=40), "thorough": dict(steps=6000, apalache_samples=600, apalache_timeout=2400)}
 
@@ -139,8 +147,8 @@ PROPS = {
     "C08": {"level": "model_checking", "stages": [VEST_MC, VEST_POOLS, VEST_ACCTS, SPLIT_NUM, VEST_TRACE], "assumptions": VEST_ASSUME},
     "C07": {"level": "model_checking", "stages": [VEST_MC, SPLIT_DRIFT, SPLIT_NUM, VEST_ACCTS, VEST_TWO, VEST_TRACE],
             "assumptions": VEST_ASSUME + ["real-magnitude steps (amounts to 10^30) are single splits on fresh accounts; Apalache 0.58 evaluates spec/VestingMath.tla at P = 10^18"]},
-    "C09": {"level": "model_checking", "stages": [VEST_MC, VEST_ACCTS, VEST_POOLS, SIG_MBT, VEST_TRACE], "assumptions": VEST_ASSUME},
-    "C15": {"level": "model_checking", "stages": [SIG_MBT],
+    "C09": {"level": "model_checking", "stages": [VEST_MC, VEST_ACCTS, VEST_POOLS, SIG_MBT, VEST_TRACE, SIG_TRACE], "assumptions": VEST_ASSUME},
+    "C15": {"level": "model_checking", "stages": [SIG_MBT, SIG_TRACE],
             "assumptions": TRUST + ["cryptography is abstract in the model; the harness concretises keys with generated ECDSA P-256 / RSA-2048 self-signed certificates, so soundness is relative to Go's crypto/x509",
                                     "the cfesignature Msg service is not registered with the application's router; the harness calls keeper.NewMsgServerImpl directly"]},
     "C17": {"level": "model_checking", "stages": [VEST_MC, VEST_ACCTS, VEST_POOLS, VEST_TRACE], "assumptions": VEST_ASSUME},
